@@ -35,6 +35,15 @@ TRUSTED_EXTRA = ["harness/C08_shim.c (LD_PRELOAD interposition of fopen/fwrite/f
 
 ENOSPC, EFBIG = 28, 27
 
+class _P:
+    pass
+def sh_bin(cmd, env=None, timeout=None):
+    """like common.run, but cfitsio may echo bytes of a damaged file into its error messages: decode leniently"""
+    p = subprocess.run(cmd, env=env, stdout=subprocess.PIPE, stderr=subprocess.PIPE, timeout=timeout)
+    r = _P(); r.returncode = p.returncode
+    r.stdout = p.stdout.decode("utf-8", "replace"); r.stderr = p.stderr.decode("utf-8", "replace")
+    return r
+
 # ------------------------------------------------------------------------------------------------
 def mk_case(p):
     """deterministic table from a small parameter dict (kept in replay files and in corpus/C08/*.json)"""
@@ -137,7 +146,7 @@ class Env:
                 f.write("%s %s %s %s %d %d %d %d %s %d\n" % (l["id"], l["tbl"], l["out"], l.get("writer", "file"), l.get("failop", -1), l.get("err", ENOSPC),
                                                              l.get("sticky", 0), l.get("fsize", 0), l.get("log", "-"), l.get("apifail", -1)))
         env = dict(os.environ); env["LD_PRELOAD"] = self.shim
-        p = sh([self.hw, "w", lst], env=env, timeout=3000)
+        p = sh_bin([self.hw, "w", lst], env=env, timeout=3000)
         res = {}
         for l in p.stdout.split("\n"):
             w = l.split(" ", 6)
@@ -156,7 +165,7 @@ class Env:
             for i, pth in files:
                 f.write("%s %s %s\n" % (i, pth, pth + ".rdump"))
         env = dict(os.environ); env["ASAN_OPTIONS"] = "detect_leaks=0"
-        p = sh([self.hr, "r", lst], env=env, timeout=3000)
+        p = sh_bin([self.hr, "r", lst], env=env, timeout=3000)
         res = {}
         for l in p.stdout.split("\n"):
             w = l.split(" ", 2)
